@@ -22,16 +22,6 @@
  * A statement about (g_cw_blk, g_cw_off) is a statement about every byte of every block. */
 #ifndef VERIF_HASH_SPEC_H
 #define VERIF_HASH_SPEC_H
-/* The hash units do not touch curve arithmetic: shrink the (extern, hence unconstrained) precomputed
- * tables so that 8 MB of nondet table entries are not bit-blasted into every query (saves ~25 s per
- * unit).  src/hash_impl.h does not depend on these macros. */
-#include "cfg.h"
-#undef ECMULT_WINDOW_SIZE
-#define ECMULT_WINDOW_SIZE 2
-#undef COMB_BLOCKS
-#define COMB_BLOCKS 2
-#undef COMB_TEETH
-#define COMB_TEETH 5
 #include "pre.h"
 
 #ifndef VERIF_NATIVE
@@ -106,8 +96,8 @@ static void secp256k1_sha256_write(const secp256k1_hash_ctx *hash_ctx, secp256k1
 __CPROVER_requires(__CPROVER_rw_ok(hash, sizeof(*hash)) && (len == 0 || __CPROVER_r_ok(data, len)) && __CPROVER_r_ok(hash_ctx, sizeof(*hash_ctx)))
 __CPROVER_requires(hash_ctx->fn_sha256_compression == verif_compress)
 __CPROVER_requires(hash->bytes <= UINT64_MAX - len)                                     /* the function's own precondition (VERIFY_CHECK) */
+__CPROVER_requires(g_cw_off < 64 && g_sk < 8 && g_cw_blk <= (UINT64_MAX >> 6) && g_cw_hit >= 0 && g_cw_hit < 1000 && g_c_calls <= (SIZE_MAX >> 1))
 __CPROVER_requires(g_c_blocks == hash->bytes / 64 && hash->s[g_sk] == g_c_cur)
-__CPROVER_requires(g_cw_off < 64 && g_sk < 8 && g_cw_blk <= (UINT64_MAX >> 6) && g_cw_hit >= 0 && g_cw_hit < 1000)
 __CPROVER_assigns(*hash, g_c_calls, g_c_blocks, g_cw_hit, g_cw_byte, g_c_cur, g_c_chain_bad, g_c_bad)
 __CPROVER_ensures(hash->bytes == W_B1)
 __CPROVER_ensures(g_c_blocks == W_B1 / 64)
@@ -122,6 +112,24 @@ __CPROVER_ensures(len == 0 ==> (hash->buf[g_cw_off] == __CPROVER_old(hash->buf[g
 ;
 #endif
 
+/* ---- CORE (non-ghost) contracts of secp256k1_sha256_write / _finalize ----------------------------------------
+ * What every stream-level contract (contracts/hash_log.h, L3 below) says about the REAL effect of the two
+ * functions once its ghost clauses are removed: pointer validity it needs, frame, byte counter.  ENFORCED on
+ * the real bodies in C05.sha256_core_write / C05.sha256_core_finalize (compression = frame stub); used,
+ * replaced, by the units that enforce the L4 HMAC contracts. */
+#ifdef HASH_SPEC_CORE_CONTRACTS
+static void secp256k1_sha256_write(const secp256k1_hash_ctx *hash_ctx, secp256k1_sha256 *hash, const unsigned char *data, size_t len)
+__CPROVER_requires(__CPROVER_rw_ok(hash, sizeof(*hash)) && (len == 0 || __CPROVER_r_ok(data, len)) && hash_ctx != NULL)
+__CPROVER_requires(hash->bytes <= UINT64_MAX - len)
+__CPROVER_assigns(*hash)
+__CPROVER_ensures(hash->bytes == __CPROVER_old(hash->bytes) + len)
+;
+static void secp256k1_sha256_finalize(const secp256k1_hash_ctx *hash_ctx, secp256k1_sha256 *hash, unsigned char *out32)
+__CPROVER_requires(__CPROVER_rw_ok(hash, sizeof(*hash)) && __CPROVER_w_ok(out32, 32) && hash_ctx != NULL)
+__CPROVER_assigns(*hash, __CPROVER_object_upto(out32, 32))
+;
+#endif
+
 /* ---- L3 STREAM CONTRACTS of secp256k1_sha256_write / _finalize with a ghost write log -----------------
  * Same idea as hash_log.h (a hash object = the byte stream written into it, position = the object's own
  * counter hash->bytes, epoch = number of finalize calls executed so far), extended for code that runs
@@ -133,9 +141,10 @@ __CPROVER_ensures(len == 0 ==> (hash->buf[g_cw_off] == __CPROVER_old(hash->buf[g
  *     words were the SHA-256 initial value;
  *   finalize log, slots 0..3 by finalize index: object, stream length (old bytes), digest byte at g_sdk.
  * The digest itself is unconstrained (the contracts say nothing about SHA-256 values); frames:
- * write assigns *hash, finalize assigns *hash and out32[0..32).  Justified by the L2 units: frame and
- * bytes' = bytes + len (C05.sha256_write_contract), digest = function of (start state, stream) under the
- * compression oracle (stream lemma + padding lemma). */
+ * write assigns *hash, finalize assigns *hash and out32[0..32).  The requires/assigns/non-ghost ensures are
+ * ENFORCED verbatim on (ghost bookkeeping code + the real function) in C05.shas_write_frame /
+ * C05.shas_finalize_frame (hash_frames.c); the MEANING of the log (digest = function of start state and
+ * stream under the compression oracle) is the stream lemma + padding lemma of the L2 units. */
 #ifdef HASH_SPEC_STREAM_CONTRACTS
 int g_sfin_n; int g_swe; const secp256k1_sha256 *g_swobj; uint64_t g_swpos; unsigned g_sdk;
 int g_sw_hit; unsigned char g_sw_byte; int g_sw_started, g_sw_iv;
@@ -187,8 +196,9 @@ SHAS_FSLOT(0) SHAS_FSLOT(1) SHAS_FSLOT(2) SHAS_FSLOT(3)
  *   finalize log: message length of epoch g_hwe; digest byte at g_hdk of epochs g_hwe (cur), g_hwe-1 (prev),
  *     g_hwe-2 (prev2) and of the most recent computation (last) - enough to state "this key / this message
  *     is the output of that earlier HMAC".
- * Digest values are unconstrained.  Non-ghost clauses (inner/outer counters, frames) are what
- * C05.hmac_initialize/_write/_finalize prove about the real functions. */
+ * Digest values are unconstrained.  The contracts are ENFORCED verbatim on (ghost bookkeeping code + the real
+ * hmac function, its SHA calls replaced by the enforced CORE contracts) in C05.hmacs_*_frame (hash_frames.c);
+ * what the real functions hash is C05.hmac_initialize/_write/_finalize. */
 #ifdef HASH_SPEC_HMAC_CONTRACTS
 int g_hfin_n; int g_hwe; uint64_t g_hwpos; unsigned g_hkk, g_hdk;
 int g_hk_n; size_t g_hk_len; unsigned char g_hk_byte;
@@ -218,7 +228,7 @@ __CPROVER_ensures((g_hfin_n == g_hwe && __CPROVER_old(hash->inner.bytes) - 64 <=
 static void secp256k1_hmac_sha256_finalize(const secp256k1_hash_ctx *hash_ctx, secp256k1_hmac_sha256 *hash, unsigned char *out32)
 __CPROVER_requires(__CPROVER_rw_ok(hash, sizeof(*hash)) && __CPROVER_w_ok(out32, 32) && hash_ctx != NULL)
 __CPROVER_requires(hash->inner.bytes >= 64 && hash->inner.bytes < ((uint64_t)1 << 61) && hash->outer.bytes == 64)
-__CPROVER_requires(g_hdk < 32 && g_hfin_n >= 0 && g_hfin_n < (1 << 30))
+__CPROVER_requires(g_hdk < 32 && g_hfin_n >= 0 && g_hfin_n < (1 << 30) && g_hwe >= 0)
 __CPROVER_assigns(*hash, __CPROVER_object_upto(out32, 32), g_hfin_n, g_hf_len, g_hf_cur, g_hf_prev, g_hf_prev2, g_hf_last)
 __CPROVER_ensures(g_hfin_n == __CPROVER_old(g_hfin_n) + 1 && g_hf_last == out32[g_hdk])
 __CPROVER_ensures(__CPROVER_old(g_hfin_n) == g_hwe
